@@ -31,6 +31,9 @@ import (
 
 // AfterStep implements kernel.World: harvest finished controllers, then look at newly parked calls.
 func (w *World) AfterStep(s *kernel.Sim) {
+	if w.ls != nil && w.ls.Check() {
+		return
+	}
 	for _, inc := range w.incs {
 		if inc.Harvested || !inc.finished() {
 			continue
